@@ -631,8 +631,14 @@ def run(ctx):
         d3 = [s for s in sequences(T, 3 if ctx.quick else 4, pool) if len(s) >= 3 and sum(len(T[n]) for n in s) < 400]
         for i in range(0, len(d2), 150):
             jobs.append((cfg, d2[i:i + 150], True, True))
-        for i in range(0, len(d3), 300):
-            jobs.append((cfg, d3[i:i + 300], not ctx.quick, True))
+        # every pair of cuts for the sequences of three tokens; the (much more numerous and longer) sequences of four
+        # get every single cut and byte-at-a-time
+        d3a = [s for s in d3 if len(s) <= 3]
+        d3b = [s for s in d3 if len(s) > 3]
+        for i in range(0, len(d3a), 300):
+            jobs.append((cfg, d3a[i:i + 300], not ctx.quick, True))
+        for i in range(0, len(d3b), 300):
+            jobs.append((cfg, d3b[i:i + 300], False, True))
     for cfg in (CONFIGS[:5] if ctx.quick else CONFIGS):
         jobs.append(("history", cfg))
     jobs.append(("negotiation",))
